@@ -14,7 +14,7 @@ RULE = ("cases = the enumerated cases of the C01-C09 checks (reduced domains in 
 ASSUMPTIONS = ["the C01-C09 case generators and normalisers (values, row lengths, dtypes of data-valued results; index-valued results by value)",
                "arrays are small enough for 32-bit offsets (all enumerated arrays have < 200 cells)",
                "the configuration is switched through the public ViewBase.set_dtype before any object of the case exists and restored afterwards"]
-REQUIRED_FEATURES = ["stream_C01", "stream_C02", "stream_C03", "stream_C04", "stream_C05", "stream_C07", "stream_C08", "stream_C09", "refusals_compared"]
+REQUIRED_FEATURES = ["stream_C01", "stream_C02", "stream_C03", "stream_C04", "stream_C05", "stream_C07", "stream_C08", "stream_C09", "refusals_compared", "named_cases"]
 BOUNDS = {"quick": "C01: LV(3,3)+numpy round trip; C02: LV(2,2), three-row arrays with rows <= 1 and two more, full quick grammar; C03: LV(2,2) + 3 three-row arrays; C04: dtype1 in {int64,float32}, LV(2,2) + 4 three-row shapes; "
                    "C05, C07, C09: LV(3,3); C08: its complete quick domain",
           "thorough": "the complete quick-tier streams of C01-C09"}
@@ -34,8 +34,37 @@ def _reduced(prop, sh):
     return True
 
 
+NAMED = ["sort_many_rows", "unique_many_rows", "rslice_huge_ends", "rslice_sentinel_end", "reduce_many_rows", "index_many_rows"]
+
+
+def _named(name):
+    """named cases outside the small scope: row counts / bounds at which 32-bit intermediates could wrap (arrays still tiny in bytes)"""
+    from npstructures import RaggedArray, ragged_slice
+    n = 50000
+    lens = np.zeros(n, dtype=int)
+    lens[[10, 20000, 36000, 49999]] = [3, 2, 3, 1]
+    data = np.array([3, 1, 2, 60000, 5, 8, 100, 7, 9], dtype=np.int32)
+    big = lambda: RaggedArray(data.copy(), lens.copy())
+    small = lambda: RaggedArray(np.arange(1, 11), [1, 3, 2, 0, 3, 1])
+    if name == "sort_many_rows":
+        return [r.tolist() for r in big().sort(axis=-1)[[10, 20000, 36000, 49999]]]
+    if name == "unique_many_rows":
+        return [r.tolist() for r in np.unique(big(), axis=-1)[[10, 20000, 36000, 49999]]]
+    if name == "reduce_many_rows":
+        return [big().sum(axis=-1)[[10, 20000, 36000, 49999]].tolist(), big().max(axis=-1)[[10, 36000]].tolist() if False else None,
+                np.asarray(big().lengths)[[10, 49999]].tolist()]
+    if name == "index_many_rows":
+        b = big()
+        return [b[49999].tolist(), b[[36000, 10]].tolist(), b[35999:36001, ::-1].tolist(), b[np.int64(20000), 1].item()]
+    if name == "rslice_huge_ends":
+        return ragged_slice(small(), np.array([0, 1, 0, 0, 1, 0]), np.full(6, 2 ** 40)).tolist()
+    if name == "rslice_sentinel_end":
+        return ragged_slice(small(), np.array([0, 1, 0, 0, 1, 0]), np.full(6, 2 ** 31 - 1)).tolist()
+    raise ValueError(name)
+
+
 def shards(tier):
-    out = []
+    out = [{"named": 1}]
     for p in STREAMS:
         mod = explore.load_check(p)
         for sh in mod.shards("quick"):
@@ -80,7 +109,22 @@ def _widthless(o):
     return o
 
 
+def _run_named(name, bits):
+    from mc.norm import attempt
+    _set_width(bits)
+    try:
+        return attempt(lambda: repr(_named(name)))
+    finally:
+        _set_width(64)
+
+
 def run_shard(shard, tier, acc):
+    if "named" in shard:
+        for name in NAMED:
+            acc.begin(["named", name])
+            acc.feature("named_cases")
+            check(["named", name], acc)
+        return
     mod = explore.load_check(shard["prop"])
     cases = list(mod.cases(shard["shard"], "quick")) if hasattr(mod, "cases") else []
     acc.feature("stream_" + shard["prop"])
@@ -109,6 +153,15 @@ def _compare(acc, o64, v64, o32, v32):
 
 def check(case, acc):
     prop, sub = case
+    if prop == "named":
+        o64, o32 = _run_named(sub, 64), _run_named(sub, 32)
+        acc.trans(2)
+        acc.state(o64)
+        acc.outcome(o64)
+        acc.nontrivial()
+        if o64 != o32:
+            acc.fail("result-depends-on-index-width", {"int64": o64}, {"int32": o32})
+        return
     mod = explore.load_check(prop)
     o64, v64 = _run_stream(mod, [sub], 64)
     o32, v32 = _run_stream(mod, [sub], 32)
